@@ -61,18 +61,39 @@ def Tree.leafAt : Tree → Nat → Bytes
   | .leaf b, _ => b
   | .node l r, i => if i / 2 ^ l.depth % 2 = 0 then l.leafAt (i % 2 ^ l.depth) else r.leafAt (i % 2 ^ l.depth)
 
-/-- An explicit collision of `H` on 64-byte inputs: two different concatenations of two 32-byte nodes with the same hash.
-    Every real hash function with 32-byte outputs *has* such pairs (there are 256^64 inputs and 256^32 outputs); collision
-    resistance means nobody can exhibit one.  The theorems below therefore never assume that there is none — an assumption
-    no function satisfies, under which anything would follow — they *return* the pair. -/
+/-- A collision of `H` on 64-byte inputs: two different concatenations of two 32-byte nodes with the same hash.
+    Every function with 32-byte outputs *has* such pairs (256^64 inputs, 256^32 outputs: `C04I.collision64_exists`), so
+    neither "there is no collision" (unsatisfiable: a theorem assuming it says nothing) nor "… or some collision exists"
+    (always true: a theorem concluding it says nothing) can carry the property.  What can: the collision is **one of the
+    finitely many pairs the run itself computed** — `RunCollision` below. -/
 def Collision64 (H : Bytes → Bytes) : Prop :=
   ∃ a b : Bytes, a.length = 64 ∧ b.length = 64 ∧ a ≠ b ∧ H a = H b
+
+/-- the 64-byte strings hashed while folding `cur` up `path` at index `i` (what the verifier feeds to `H`) -/
+def foldInputs (H : Bytes → Bytes) : Bytes → List Bytes → Nat → List Bytes
+  | _, [], _ => []
+  | cur, next :: rest, index =>
+    (if index % 2 = 0 then cur ++ next else next ++ cur) :: foldInputs H (stepNode H cur next index) rest (index / 2)
+
+/-- the 64-byte strings hashed when the tree's root was computed (what the block's producer fed to `H`) -/
+def Tree.inputs (H : Bytes → Bytes) : Tree → List Bytes
+  | .leaf _ => []
+  | .node l r => (l.root H ++ r.root H) :: (l.inputs H ++ r.inputs H)
+
+/-- **a collision found by the run**: one of the strings the verifier hashed and one of the strings the tree's producer
+    hashed are different 64-byte strings with the same hash.  Both lists are computable from the presented proof and the
+    block, so whoever gets a wrong leaf accepted has *exhibited* a double-SHA-256 collision. -/
+def RunCollision (H : Bytes → Bytes) (leaf : Bytes) (path : List Bytes) (i : Nat) (t : Tree) : Prop :=
+  ∃ a ∈ foldInputs H leaf path i, ∃ b ∈ t.inputs H, a.length = 64 ∧ b.length = 64 ∧ a ≠ b ∧ H a = H b
+
+theorem RunCollision.collision64 {H leaf path i t} (h : RunCollision H leaf path i t) : Collision64 H := by
+  obtain ⟨a, _, b, _, ha, hb, hne, he⟩ := h; exact ⟨a, b, ha, hb, hne, he⟩
 
 /-- the only assumption on the hash: its outputs are 32 bytes (true of double SHA-256) -/
 def Out32 (H : Bytes → Bytes) : Prop := ∀ b, (H b).length = 32
 
-/-- The former idealisation (outputs 32 bytes **and** injective on 64-byte inputs), kept only to state the corollaries in
-    their familiar form; see `Collision64` for why the main theorems do not use it. -/
+/-- The former idealisation (outputs 32 bytes **and** injective on 64-byte inputs), kept only to state the corollary in
+    its familiar form; it is met by no function (`C04I.idealHash_unsatisfiable`). -/
 structure IdealHash (H : Bytes → Bytes) : Prop where
   out32 : ∀ b, (H b).length = 32
   inj64 : ∀ a b : Bytes, a.length = 64 → b.length = 64 → H a = H b → a = b
@@ -91,14 +112,41 @@ theorem foldUp_len {H} (hH : Out32 H) (cur : Bytes) (path : List Bytes) (i : Nat
   | nil => simpa [foldUp]
   | cons p ps ih => simp only [foldUp]; apply ih; unfold stepNode; split <;> exact hH _
 
+theorem foldInputs_append (H : Bytes → Bytes) (cur : Bytes) (path : List Bytes) (x : Bytes) (idx : Nat) :
+    foldInputs H cur (path ++ [x]) idx = foldInputs H cur path idx ++
+      [if (idx / 2 ^ path.length) % 2 = 0 then foldUp H cur path idx ++ x else x ++ foldUp H cur path idx] := by
+  induction path generalizing cur idx with
+  | nil => simp [foldInputs, foldUp]
+  | cons p ps ih =>
+    simp only [List.cons_append, foldInputs, foldUp, List.length_cons]
+    rw [ih]
+    have : idx / 2 / 2 ^ ps.length = idx / 2 ^ (ps.length + 1) := by
+      rw [Nat.div_div_eq_div_mul, Nat.pow_succ, Nat.mul_comm]
+    rw [this]
+
+theorem foldInputs_mod (H : Bytes → Bytes) (cur : Bytes) (path : List Bytes) (i : Nat) :
+    foldInputs H cur path i = foldInputs H cur path (i % 2 ^ path.length) := by
+  induction path generalizing cur i with
+  | nil => simp [foldInputs]
+  | cons p ps ih =>
+    simp only [foldInputs, List.length_cons]
+    have h1 : (i % 2 ^ (ps.length + 1)) % 2 = i % 2 := by
+      rw [Nat.pow_succ, Nat.mul_comm]; exact Nat.mod_mul_right_mod i 2 (2 ^ ps.length)
+    have h2 : (i % 2 ^ (ps.length + 1)) / 2 = (i / 2) % 2 ^ ps.length := by
+      rw [Nat.pow_succ, Nat.mul_comm, Nat.mod_mul_right_div_self]
+    unfold stepNode
+    simp only [h1, h2]
+    congr 1
+    split <;> exact ih _ _
+
 /-- **Position binding.**  If a 32-byte leaf hashes up a well-formed path of the tree's depth to the tree's root at
-    position `i < 2^depth`, then the leaf *is* the tree's leaf at position `i` — or the run exhibits a collision of the
-    hash on two 64-byte inputs.  No assumption on `H` beyond the size of its outputs. -/
+    position `i < 2^depth`, then the leaf *is* the tree's leaf at position `i` — or the verifier's own hash inputs and the
+    tree's hash inputs contain a collision (`RunCollision`).  No assumption on `H` beyond the size of its outputs. -/
 theorem C04_position_binding {H} (hH : Out32 H) (t : Tree) (hp : t.Perfect)
     (leaf : Bytes) (path : List Bytes) (i : Nat)
     (hl : leaf.length = 32) (hpath : ∀ c ∈ path, c.length = 32)
     (hd : path.length = t.depth) (hi : i < 2 ^ t.depth)
-    (hroot : foldUp H leaf path i = t.root H) : leaf = t.leafAt i ∨ Collision64 H := by
+    (hroot : foldUp H leaf path i = t.root H) : leaf = t.leafAt i ∨ RunCollision H leaf path i t := by
   induction t generalizing path i with
   | leaf b =>
     simp [Tree.depth] at hd
@@ -122,6 +170,18 @@ theorem C04_position_binding {H} (hH : Out32 H) (t : Tree) (hp : t.Perfect)
     have hlt : i % 2 ^ l.depth < 2 ^ l.depth := Nat.mod_lt _ (Nat.two_pow_pos _)
     have hfold : foldUp H leaf init i = foldUp H leaf init (i % 2 ^ l.depth) := by
       rw [← hlen]; exact foldUp_mod H leaf init i
+    have hins : foldInputs H leaf init (i % 2 ^ l.depth) = foldInputs H leaf init i := by
+      rw [← hlen]; exact (foldInputs_mod H leaf init i).symm
+    -- a collision found below is a collision of the whole run
+    have lift : ∀ s : Tree, (∀ b ∈ s.inputs H, b ∈ (Tree.node l r).inputs H) →
+        RunCollision H leaf init (i % 2 ^ l.depth) s → RunCollision H leaf (init ++ [last]) i (Tree.node l r) := by
+      intro s hs ⟨a, ha, b, hb, h1, h2, h3, h4⟩
+      refine ⟨a, ?_, b, hs b hb, h1, h2, h3, h4⟩
+      rw [foldInputs_append]; rw [hins] at ha; simp [ha]
+    have top : ∀ a : Bytes, a ∈ foldInputs H leaf (init ++ [last]) i → a.length = 64 → a ≠ l.root H ++ r.root H →
+        H a = H (l.root H ++ r.root H) → RunCollision H leaf (init ++ [last]) i (Tree.node l r) := by
+      intro a ha hlen64 hne' he
+      exact ⟨a, ha, l.root H ++ r.root H, by simp [Tree.inputs], hlen64, by simp [hlr, hrr], hne', he⟩
     unfold stepNode at hroot
     simp only [Tree.root] at hroot
     simp only [Tree.leafAt]
@@ -131,55 +191,72 @@ theorem C04_position_binding {H} (hH : Out32 H) (t : Tree) (hp : t.Perfect)
       · have h1 := List.append_inj_left heq (by rw [hsub, hlr])
         rw [if_pos hbit]
         rw [hfold] at h1
-        exact ihl hpl init (i % 2 ^ l.depth) hinit hlen hlt h1
-      · exact Or.inr ⟨_, _, by simp [hsub, hlast], by simp [hlr, hrr], heq, hroot⟩
+        rcases ihl hpl init (i % 2 ^ l.depth) hinit hlen hlt h1 with e | c
+        · exact Or.inl e
+        · exact Or.inr (lift l (fun b hb => by simp [Tree.inputs, hb]) c)
+      · refine Or.inr (top _ ?_ (by simp [hsub, hlast]) heq hroot)
+        rw [foldInputs_append, hlen, if_pos hbit]; simp
     · rename_i hbit
       by_cases heq : last ++ foldUp H leaf init i = l.root H ++ r.root H
       · have h1 := List.append_inj_right heq (by rw [hlast, hlr])
         rw [if_neg hbit]
         rw [hfold] at h1
-        exact ihr hpr init (i % 2 ^ l.depth) hinit (by omega) (by rw [← hdep]; exact hlt) h1
-      · exact Or.inr ⟨_, _, by simp [hsub, hlast], by simp [hlr, hrr], heq, hroot⟩
+        rcases ihr hpr init (i % 2 ^ l.depth) hinit (by omega) (by rw [← hdep]; exact hlt) h1 with e | c
+        · exact Or.inl e
+        · exact Or.inr (lift r (fun b hb => by simp [Tree.inputs, hb]) c)
+      · refine Or.inr (top _ ?_ (by simp [hsub, hlast]) heq hroot)
+        rw [foldInputs_append, hlen, if_neg hbit]; simp
 
 /-- Corollary used by C03: with a proof accepted by `verify` against a block's tree, the transaction presented at
     position `i` is the tree's leaf at `i` (so the first transaction can be presented at position 0 only, and no other
-    transaction there) — or a collision is exhibited. -/
+    transaction there) — or the run exhibits a collision. -/
 theorem C04_accepted_is_leaf {H} (hH : Out32 H) (t : Tree) (hp : t.Perfect)
     (txid proof : Bytes) (i : Nat) (hdepth : proof.length / 32 = t.depth)
-    (hacc : verify H txid (t.root H) proof i = true) : txid = t.leafAt i ∨ Collision64 H := by
+    (hacc : verify H txid (t.root H) proof i = true) :
+    txid = t.leafAt i ∨ RunCollision H txid (chunks proof) i t := by
   obtain ⟨h1, _, h3, h4, h5⟩ := (C04_exact H txid (t.root H) proof i).mp hacc
   exact C04_position_binding hH t hp txid (chunks proof) i h1 (chunks_all32 proof h3)
     (by rw [chunks_length proof h3, hdepth]) (by rw [← hdepth]; exact h4) h5
 
 /-- **Two presentations of one position agree**: whatever is accepted at position `i` of the same tree is the same
-    leaf (or a collision is exhibited) — the tree need not be known to the verifier. -/
+    leaf, or one of the two runs exhibits a collision. -/
 theorem C04_same_position_same_leaf {H} (hH : Out32 H) (t : Tree) (hp : t.Perfect)
     (tx1 tx2 pr1 pr2 : Bytes) (i : Nat) (hd1 : pr1.length / 32 = t.depth) (hd2 : pr2.length / 32 = t.depth)
     (h1 : verify H tx1 (t.root H) pr1 i = true) (h2 : verify H tx2 (t.root H) pr2 i = true) :
-    tx1 = tx2 ∨ Collision64 H := by
+    tx1 = tx2 ∨ RunCollision H tx1 (chunks pr1) i t ∨ RunCollision H tx2 (chunks pr2) i t := by
   rcases C04_accepted_is_leaf hH t hp tx1 pr1 i hd1 h1 with e1 | c
   · rcases C04_accepted_is_leaf hH t hp tx2 pr2 i hd2 h2 with e2 | c
     · exact Or.inl (e1.trans e2.symm)
-    · exact Or.inr c
-  · exact Or.inr c
+    · exact Or.inr (Or.inr c)
+  · exact Or.inr (Or.inl c)
 
-/-- the familiar form, under the idealisation -/
+/-- the familiar form, under the (unsatisfiable) idealisation — kept for reference only, not a property theorem -/
 theorem C04_position_binding_ideal {H} (hH : IdealHash H) (t : Tree) (hp : t.Perfect)
     (leaf : Bytes) (path : List Bytes) (i : Nat)
     (hl : leaf.length = 32) (hpath : ∀ c ∈ path, c.length = 32)
     (hd : path.length = t.depth) (hi : i < 2 ^ t.depth)
     (hroot : foldUp H leaf path i = t.root H) : leaf = t.leafAt i :=
-  (C04_position_binding hH.out32 t hp leaf path i hl hpath hd hi hroot).resolve_right hH.no_collision
+  (C04_position_binding hH.out32 t hp leaf path i hl hpath hd hi hroot).resolve_right
+    (fun c => hH.no_collision c.collision64)
 
-/-- non-vacuity: a genuine two-leaf tree, its genuine proof for position 1, with a hash of 32-byte outputs -/
-example : let H : Bytes → Bytes := fun b => (b.take 16 ++ b.drop 48 ++ List.replicate 32 0).take 32
-    let t := Tree.node (.leaf (List.replicate 32 1)) (.leaf (List.replicate 32 2))
-    Out32 H ∧ t.Perfect ∧ verify H (List.replicate 32 2) (t.root H) (List.replicate 32 1) 1 = true ∧
-      t.leafAt 1 = List.replicate 32 2 := by
-  refine ⟨?_, ⟨by simp [Tree.Perfect], by simp [Tree.Perfect], rfl⟩, by decide, by decide⟩
+/-- non-vacuity, both ways: with a toy hash of 32-byte outputs, a genuine two-leaf tree and its genuine proof for
+    position 1 are accepted and there is **no** run collision (so the disjunction is decided by its first half) … -/
+def toyH : Bytes → Bytes := fun b => (b.take 16 ++ b.drop 48 ++ List.replicate 32 0).take 32
+def toyT : Tree := Tree.node (.leaf (List.replicate 32 1)) (.leaf (List.replicate 32 2))
+
+example : Out32 toyH := by
   intro b
-  simp only [List.length_take, List.length_append, List.length_drop, List.length_replicate]
+  simp only [toyH, List.length_take, List.length_append, List.length_drop, List.length_replicate]
   omega
+example : toyT.Perfect := ⟨by simp [Tree.Perfect], by simp [Tree.Perfect], rfl⟩
+example : verify toyH (List.replicate 32 2) (toyT.root toyH) (List.replicate 32 1) 1 = true ∧
+    toyT.leafAt 1 = List.replicate 32 2 := by decide
+/-- … and a wrong leaf that the toy hash lets through at position 1 comes with its collision: the verifier hashed
+    `1…1 ‖ 7…7 2…2` (bytes 16–47 are ignored by the toy hash), the producer `1…1 ‖ 2…2`. -/
+example : let bad := List.replicate 16 7 ++ List.replicate 16 2
+    verify toyH bad (toyT.root toyH) (List.replicate 32 1) 1 = true ∧ bad ≠ toyT.leafAt 1 ∧
+    (foldInputs toyH bad [List.replicate 32 1] 1).any (fun a => (toyT.inputs toyH).any (fun b => a != b && toyH a == toyH b)) = true := by
+  decide
 
 /-! ### The unrepaired function (pinned commit) violates the range clause — finding F2 -/
 
